@@ -194,6 +194,41 @@ fn run_tree<X: Tree>(ctx: &mut Ctx, prop: &str, gen: &Gen, vm: &str) {
                 ctx.obs("clone == original", &cl, path as u128, 0, 0, Exp::Is(true), || t2.clone() == t2);
             }
             ctx.obs("clone == original", &cl, 0, 0, 0, Exp::Is(true), || t.clone() == t);
+            if !X::HUFF {
+                // `t` has answered queries by now: a value that has not must still compare equal to it
+                if let Some(fresh) = build_tree::<X>(ctx, &vals, 1, &cl) {
+                    ctx.obs("never queried value == queried value", &cl, 0, 0, 0, Exp::Is(true), || fresh == t);
+                    ctx.obs("clone of queried value == never queried value", &cl, 0, 0, 0, Exp::Is(true), || t.clone() == fresh);
+                }
+            }
+            // neighbours: one changed symbol / one transposition at positions of every layout class
+            if n >= 2 && n <= 1200 && !X::HUFF {
+                let mut ps: Vec<usize> = vec![0, 1, n / 2, n - 2, n - 1, 127, 128, 129, 255, 256, 257, 383, 384, 511, 512];
+                let last_line = (n - 1) / 256 * 256;
+                ps.extend([last_line, last_line + 1, last_line + 127, last_line + 128, last_line + 129, last_line + 200]);
+                ps.retain(|&p| p < n);
+                ps.sort_unstable();
+                ps.dedup();
+                for &p in &ps {
+                    let mut v2 = vals.clone();
+                    // a different symbol of the alphabet at p (cycle through the occurring symbols)
+                    let syms = r.symbols();
+                    let k = syms.iter().position(|s| *s == v2[p]).unwrap();
+                    v2[p] = syms[(k + 1) % syms.len()];
+                    if v2 != vals {
+                        if let Some(t2) = build_tree::<X>(ctx, &v2, 1, &cl) {
+                            ctx.obs("tree(S) == tree(S with one symbol changed)", &cl, 0, p as u64, 0, Exp::Is(false), || t2 == t);
+                        }
+                    }
+                    if p + 1 < n && vals[p] != vals[p + 1] {
+                        let mut v3 = vals.clone();
+                        v3.swap(p, p + 1);
+                        if let Some(t3) = build_tree::<X>(ctx, &v3, 1, &cl) {
+                            ctx.obs("tree(S) == tree(S with two neighbours swapped)", &cl, 1, p as u64, 0, Exp::Is(false), || t3 == t);
+                        }
+                    }
+                }
+            }
             let tc = t.clone();
             let dc = ctx.digest_of(|c| sweep_tree(c, &tc, &r, &o));
             if dc != d0 {
@@ -414,11 +449,28 @@ fn run_quad<X: QuadRS>(ctx: &mut Ctx, prop: &str, gen: &Gen) {
                 ctx.obs("path == new()", "", 0, 0, 0, Exp::Is(true), || t2 == t);
             }
             ctx.obs("clone == original", "", 0, 0, 0, Exp::Is(true), || t.clone() == t);
-            if !q.is_empty() {
-                let mut q2 = q.clone();
-                let j = q2.len() / 2;
-                q2[j] = (q2[j] + 1) % 4;
-                ctx.obs("!= vector differing in one symbol", "", j as u128, 0, 0, Exp::Is(false), || X::new_u8(&q2) == t);
+            ctx.obs("never queried value == queried value", "", 0, 0, 0, Exp::Is(true), || X::new_u8(&q) == t);
+            if !q.is_empty() && q.len() <= 9000 {
+                let n = q.len();
+                let last_line = (n - 1) / 256 * 256;
+                let mut ps: Vec<usize> = vec![0, 1, n / 2, n.saturating_sub(2), n - 1, 127, 128, 129, 255, 256, 257, 511, 512, 2047, 2048, last_line, last_line + 1, last_line + 127, last_line + 128, last_line + 129, last_line + 200];
+                ps.retain(|&p| p < n);
+                ps.sort_unstable();
+                ps.dedup();
+                for &p in &ps {
+                    for d in [1u8, 2, 3] {
+                        let mut q2 = q.clone();
+                        q2[p] = (q2[p] + d) % 4;
+                        ctx.obs("!= vector differing in one symbol", "", d as u128, p as u64, 0, Exp::Is(false), || X::new_u8(&q2) == t);
+                        ctx.obs("QVector != QVector differing in one symbol", "", d as u128, p as u64, 0, Exp::Is(false), || q2.iter().copied().collect::<QVector>() == q.iter().copied().collect::<QVector>());
+                    }
+                    if p + 1 < n && q[p] != q[p + 1] {
+                        let mut q3 = q.clone();
+                        q3.swap(p, p + 1);
+                        ctx.obs("!= vector with two neighbours swapped", "", 0, p as u64, 0, Exp::Is(false), || X::new_u8(&q3) == t);
+                        ctx.obs("QVector != QVector with two neighbours swapped", "", 0, p as u64, 0, Exp::Is(false), || q3.iter().copied().collect::<QVector>() == q.iter().copied().collect::<QVector>());
+                    }
+                }
             }
             let mut q3 = q.clone();
             q3.push(0);
@@ -533,11 +585,18 @@ fn run_bin<X: BinRS>(ctx: &mut Ctx, prop: &str, gen: &BitGen) {
                 }
             }
             ctx.obs("clone == original", "", 0, 0, 0, Exp::Is(true), || t.clone() == t);
+            ctx.obs("never queried value == queried value", "", 0, 0, 0, Exp::Is(true), || X::new_(bits.iter().copied().collect::<BitVector>()) == t);
+            ctx.obs("clone of queried value == never queried value", "", 0, 0, 0, Exp::Is(true), || t.clone() == X::new_(bits.iter().copied().collect::<BitVector>()));
             if !bits.is_empty() {
-                let mut b2 = bits.clone();
-                let j = b2.len() / 2;
-                b2[j] = !b2[j];
-                ctx.obs("!= vector differing in one bit", "", j as u128, 0, 0, Exp::Is(false), || X::new_(b2.iter().copied().collect::<BitVector>()) == t);
+                let nb = bits.len();
+                let mut ps = vec![0, nb / 2, nb - 1, 63, 64, 511, 512, 4095, 4096];
+                ps.retain(|&p| p < nb);
+                ps.dedup();
+                for j in ps {
+                    let mut b2 = bits.clone();
+                    b2[j] = !b2[j];
+                    ctx.obs("!= vector differing in one bit", "", j as u128, 0, 0, Exp::Is(false), || X::new_(b2.iter().copied().collect::<BitVector>()) == t);
+                }
             }
         }
         p => panic!("run_bin: {p}"),
@@ -603,6 +662,7 @@ fn run_darr<const S0: bool>(ctx: &mut Ctx, prop: &str, gen: &BitGen) {
                 }
             }
             ctx.obs("clone == original", "", 0, 0, 0, Exp::Is(true), || t.clone() == t);
+            ctx.obs("never queried value == queried value", "", 0, 0, 0, Exp::Is(true), || DArray::<S0>::new(bits.iter().copied().collect::<BitVector>()) == t);
             if !bits.is_empty() {
                 let mut b2 = bits.clone();
                 let j = b2.len() / 2;
@@ -788,6 +848,11 @@ fn tree_subjects(v: &mut Vec<Subject>, prop: &str, th: bool) {
                 push(al, "u16", Gen::Huff { freqs: chain4(6), arr: 2 }, "hid");
                 push(al, "u16", Gen::Huff { freqs: chain4x(7, 3), arr: 2 }, "hid");
                 push(al, "u16", Gen::Huff { freqs: chain4(9), arr: 0 }, "hid");
+                if th && prop == "C11" && (al == "HQWT256" || al == "HQWT512Pfs") {
+                    // codewords of exactly 30 and 32 bits
+                    push(al, "u16", Gen::Huff { freqs: chain4(15), arr: 0 }, "hid");
+                    push(al, "u16", Gen::Huff { freqs: chain4(16), arr: 0 }, "hid");
+                }
             }
         }
     }
@@ -811,7 +876,7 @@ fn quad_subjects(v: &mut Vec<Subject>, prop: &str, th: bool) {
 
 fn bit_gens(th: bool) -> Vec<BitGen> {
     let mut g = tinybits_all(if th { 11 } else { 9 });
-    for &n in &[63usize, 64, 65, 511, 512, 513, 4095, 4096, 4097, 8192, 8193, 32768, 65537] {
+    for &n in &[63usize, 64, 65, 511, 512, 513, 1000, 4095, 4096, 4097, 7700, 8000, 8191, 8192, 8193, 16000, 16383, 32768, 65537] {
         for pat in [BitPat::Zeros, BitPat::Ones, BitPat::Alt, BitPat::Runs(512), BitPat::OnePer(1024), BitPat::ZeroPer(8192), BitPat::HalfOnes, BitPat::SingleOne(1), BitPat::SingleZero(2), BitPat::OnePer(7)] {
             g.push(BitGen::Pat { n, pat });
         }
